@@ -5,7 +5,7 @@ quick check against it.  exit 1 on a twin = a rule bound to one spelling (false 
 decide" (acceptable, listed).  Scratch copies live under mkdtemp and are removed.
 
 usage: twin_transform.py [transform ...] [--modules m1,m2] [--keep-going]
-transforms: noelse addelse docstring extracttest swapconst ifswap cmpflip notnone rettemp contguard andnest lenge
+transforms: tmparg noelse addelse docstring extracttest swapconst ifswap cmpflip notnone rettemp contguard andnest lenge
 """
 import ast
 import concurrent.futures
@@ -247,7 +247,40 @@ class AddElse(ast.NodeTransformer):
         return node
 
 
-TRANSFORMS = {'noelse': NoElse, 'addelse': AddElse, 'docstring': Docstring, 'extracttest': ExtractTest, 'swapconst': SwapConstAssigns, 'ifswap': IfSwap, 'cmpflip': CmpFlip, 'notnone': NotNone, 'rettemp': RetTemp, 'contguard': ContGuard, 'andnest': AndNest, 'lenge': LenGe}
+class TmpArg(ast.NodeTransformer):
+    """f(g(x), ...) as a statement or assigned value  ->  _arg = g(x); f(_arg, ...)   (first argument only: evaluation order is preserved
+    because the callee expression is a plain name / attribute chain of names)"""
+    n = 0
+
+    def _plain(self, e):
+        return isinstance(e, ast.Name) or (isinstance(e, ast.Attribute) and self._plain(e.value))
+
+    def _block(self, stmts):
+        out = []
+        for st in stmts:
+            call = None
+            if isinstance(st, ast.Expr) and isinstance(st.value, ast.Call):
+                call = st.value
+            elif isinstance(st, ast.Assign) and isinstance(st.value, ast.Call) and len(st.targets) == 1 and isinstance(st.targets[0], ast.Name):
+                call = st.value
+            if call is not None and self._plain(call.func) and call.args and isinstance(call.args[0], ast.Call) and not any(isinstance(a, ast.Starred) for a in call.args):
+                TmpArg.n += 1
+                name = '_arg%d' % TmpArg.n
+                out.append(ast.Assign(targets=[ast.Name(id=name, ctx=ast.Store())], value=call.args[0], lineno=st.lineno))
+                call.args[0] = ast.Name(id=name, ctx=ast.Load())
+            out.append(st)
+        return out
+
+    def generic_visit(self, node):
+        super().generic_visit(node)
+        for fld in ('body', 'orelse', 'finalbody'):
+            b = getattr(node, fld, None)
+            if isinstance(b, list) and b and isinstance(b[0], ast.stmt):
+                setattr(node, fld, self._block(b))
+        return node
+
+
+TRANSFORMS = {'tmparg': TmpArg, 'noelse': NoElse, 'addelse': AddElse, 'docstring': Docstring, 'extracttest': ExtractTest, 'swapconst': SwapConstAssigns, 'ifswap': IfSwap, 'cmpflip': CmpFlip, 'notnone': NotNone, 'rettemp': RetTemp, 'contguard': ContGuard, 'andnest': AndNest, 'lenge': LenGe}
 
 
 def run_check(args):
